@@ -1,6 +1,7 @@
 package main
 
 import (
+	"strings"
 	"go/ast"
 	"go/token"
 	"go/types"
@@ -43,6 +44,120 @@ func runC05(c *Ctx) {
 				for _, a := range f.Find(f.CallOnField(fv, "Store")) {
 					c.Check(la.At(a)[pr.lock] == 2, pr.typ+"."+pr.fld+".Store@"+fn.String(), "the lock-free size mirror is updated only inside the critical section that changed the size", c.P.Pos(a.N.Pos()), "Store outside the lock")
 				}
+			}
+		}
+	})
+
+	c.Rule("mirror-coherent", func() {
+		// workers skip a ring without locking when its atomic size mirror reads 0: every critical section that changes
+		// a ring's size must refresh that ring's mirror before it ends, or queued actors become invisible
+		size := c.Field("actor", "localQueue", "size")
+		mirror := c.Field("actor", "localQueue", "sizeAtomic")
+		seen := map[*types.Func]bool{}
+		n := 0
+		for _, u := range c.UsesOf(size) {
+			if !u.IsWrite || u.EnclObj == nil || seen[u.EnclObj] {
+				continue
+			}
+			seen[u.EnclObj] = true
+			fn := c.fnOfObj(u.EnclObj)
+			if fn == nil {
+				continue
+			}
+			f := c.NewFlow(fn)
+			info := f.Info
+			bases := map[types.Object]bool{}
+			baseOf := func(e ast.Expr) types.Object {
+				if sel, ok := ast.Unparen(e).(*ast.SelectorExpr); ok {
+					return objOf(info, sel.X)
+				}
+				return nil
+			}
+			writesOf := func(b types.Object) Match {
+				return func(nd ast.Node) bool {
+					switch x := nd.(type) {
+					case *ast.IncDecStmt:
+						return selField(info, x.X) == size && baseOf(x.X) == b
+					case *ast.AssignStmt:
+						for _, l := range x.Lhs {
+							if selField(info, l) == size && baseOf(l) == b {
+								return true
+							}
+						}
+					}
+					return false
+				}
+			}
+			ast.Inspect(fn.Decl.Body, func(nd ast.Node) bool {
+				switch x := nd.(type) {
+				case *ast.IncDecStmt:
+					if selField(info, x.X) == size {
+						bases[baseOf(x.X)] = true
+					}
+				case *ast.AssignStmt:
+					for _, l := range x.Lhs {
+						if selField(info, l) == size {
+							bases[baseOf(l)] = true
+						}
+					}
+				}
+				return true
+			})
+			for b := range bases {
+				if b == nil {
+					c.Undecided("mirror@"+fn.String()+"/base", "the ring whose size changes is a named variable", c.P.Pos(fn.Decl.Pos()), "unrecognised receiver expression")
+					continue
+				}
+				n++
+				store := func(nd ast.Node) bool {
+					call, ok := nd.(*ast.CallExpr)
+					if !ok || !f.CallOnField(mirror, "Store")(call) {
+						return false
+					}
+					if sel, ok := call.Fun.(*ast.SelectorExpr); ok {
+						return baseOf(sel.X) == b
+					}
+					return false
+				}
+				w := f.MustFollow(f.Find(writesOf(b)), store, nil)
+				c.Check(w == nil, "mirror@"+fn.String()+"/"+b.Name(), "after a ring's size changed its lock-free size mirror is refreshed before the critical section ends (both rings of a steal)", c.P.Pos(fn.Decl.Pos()),
+					"the size of ring '"+b.Name()+"' changes but its sizeAtomic is not stored afterwards: owners and thieves skip the ring as empty while it holds actors; "+f.describe(w))
+			}
+		}
+		if n < 3 {
+			c.Undecided("mirror/sites", "size-changing critical sections found", "-", "found "+itoa(n))
+		}
+		// the global ring's mirror
+		gsizeUsers := []*types.Func{c.FuncObj("actor", "globalQueue.push"), c.FuncObj("actor", "globalQueue.pop")}
+		gmirror := c.Field("actor", "readyQueue", "globalCount")
+		gseen := map[*types.Func]bool{}
+		for _, g := range gsizeUsers {
+			for _, u := range c.UsesOf(g) {
+				if u.Call == nil || u.EnclObj == nil || gseen[u.EnclObj] || !strings.Contains(funcName(u.EnclObj), "readyQueue") {
+					continue
+				}
+				gseen[u.EnclObj] = true
+				fn := c.fnOfObj(u.EnclObj)
+				f := c.NewFlow(fn)
+				// a pop that returned nil changed nothing: the edge on which its result is nil is exempt
+				unchanged := map[Edge]bool{}
+				ast.Inspect(fn.Decl.Body, func(nd ast.Node) bool {
+					as, ok := nd.(*ast.AssignStmt)
+					if !ok || len(as.Lhs) != 1 || len(as.Rhs) != 1 {
+						return true
+					}
+					call, ok := as.Rhs[0].(*ast.CallExpr)
+					if !ok || callee(f.Info, call) != c.FuncObj("actor", "globalQueue.pop") {
+						return true
+					}
+					res := objOf(f.Info, as.Lhs[0])
+					for e := range f.NilCheckEdges(func(x ast.Expr) bool { return res != nil && objOf(f.Info, x) == res }, false) {
+						unchanged[e] = true
+					}
+					return true
+				})
+				w := f.search(searchSpec{starts: f.Find(f.CallTo(gsizeUsers...)), avoid: f.CallOnField(gmirror, "Store"), avoidEdges: unchanged, exits: true})
+				c.Check(w == nil, "global-mirror@"+fn.String(), "after the global ring changed, globalCount is refreshed before the critical section ends", c.P.Pos(fn.Decl.Pos()), f.describe(w))
 			}
 		}
 	})
